@@ -11,7 +11,7 @@ def sh(cmd, cwd=None):
     return p.returncode, (p.stdout + p.stderr)
 demo = open(os.path.join(src, "demo_test.go")).read()
 pkg = re.search(r"^package\s+(\w+)", demo, re.M).group(1)
-target = {"example": "example", "lisp": ".", "lisp_test": ".", "call": "lib/call", "call_test": "lib/call", "reader": "reader", "repl": "repl", "core": "lib/core", "env": "env", "concurrent": "lib/concurrent", "concurrent_test": "lib/concurrent"}[pkg]
+target = {"example": "example", "lisp": ".", "lisp_test": ".", "call": "lib/call", "call_test": "lib/call", "reader": "reader", "reader_test": "reader", "repl_test": "repl", "env_test": "env", "core_test": "lib/core", "repl": "repl", "core": "lib/core", "env": "env", "concurrent": "lib/concurrent", "concurrent_test": "lib/concurrent"}[pkg]
 wt = tempfile.mkdtemp(prefix="seedwt_", dir="/tmp")
 os.rmdir(wt)
 rc, out = sh(["git", "-C", "/repo", "worktree", "add", "--detach", wt, "HEAD"])
